@@ -25,11 +25,23 @@ Idioms added here to those of core.py / extra.py (each one fail-closed):
   * a singledispatch family over `stmt` with a registration on the embedded root class
     (`@ir_to_c_statement.register(Expression)`): the arm of the embedding constructor `SExpr`.
 
-NOT translated (the hand model does not cover them): ir_to_c_block, ir_to_c_branch, ir_to_c_loop
-(statement layout: mutable `lines` list with append/extend, slices), indent_lines,
-ir_to_c_function_definition, ir_to_c.  Their presence is checked; the arms of Block / Branch / Loop
-in the generated `ir_to_c_statement` are `None` (which otherwise means "Python exception"), marked by
-a comment, and no theorem or self-check case speaks about them.
+Round 2 (statement structure): ir_to_c_block, ir_to_c_branch, ir_to_c_loop, indent_lines,
+ir_to_c_function_definition, ir_to_c are translated too.  Further idioms:
+
+  * a local list made by a display, never given a second name: `xs.append(e)` / `xs.extend(es)` are read as
+    `xs = xs + [e]` / `xs = xs + es` (AST pre-pass; any other use of the name than these, `len(xs)`, `return xs`
+    refuses the pre-pass and the translation then fails closed on the `.append`);
+  * `xs = []` in a function that returns `xs`: typed by the declared return type;
+  * `if P is not None: <assignments>` with P an optional field / variable -> `match P with Some p => .. | None => ..`;
+    inside, P is the payload;
+  * `xs[n:]` (constant n >= 0) -> `skipn n xs`;
+  * `X == K(<literals>)` with K a constructor and every argument `[]` / `None` (after defaults) -> a pattern match;
+  * `isinstance(v, K)` narrowing also on a local variable (the loop variable `statement`); inside the
+    narrowed branch a direct call of the registration `ir_to_c_block(statement)` is the dispatcher call
+    (it is refused anywhere else: on another class it would be an AttributeError, not the dispatch);
+  * `map(f, xs)` with f a translated function (`omap` when f may raise); `sep.join(<generator>)`;
+  * `for` loops with effects use `ofold_u` (PyLib's `ofold` with the function outside the `fix`, so that
+    Coq's guard checker accepts the nested recursion `ir_to_c_statement(statement)` under the loop).
 """
 
 from __future__ import annotations
@@ -47,7 +59,7 @@ EXPECT_TYPE_FAMS = {"type_to_c"}
 EXPECT_TYPE_PLAIN = ["space_variable"]
 EXPECT_FAMS = {"ir_to_c_expression", "ir_to_c_statement"}
 EXPECT_PLAIN = {"parens", "indent_lines", "ir_to_c_declaration", "ir_to_c_function_definition", "ir_to_c"}
-LAYOUT_CLASSES = ["Block", "Branch", "Loop"]  # registrations that are not translated
+LAYOUT_CLASSES = ["Block", "Branch", "Loop"]
 ONE_LINE_CLASSES = ["Declaration", "Assignment", "DeclarationAssignment", "Return"]
 
 
@@ -62,6 +74,8 @@ class CTranslator(XTranslator):
         self.class_helpers: dict[str, ast.FunctionDef] = {}  # helpers expanded at the call site
         self.class_consts: list[dict[str, list[ast.expr]]] = []  # stack: parameter -> class names
         self.narrow: dict[str, tuple] = {}  # dump of a path -> (ctor, {field: binder})
+        self.opt_narrow: dict[str, tuple[str, str]] = {}  # dump of an optional path -> (binder, payload type)
+        self.reg_functions: dict[str, tuple[str, str]] = {}  # registration function -> (family, python class)
 
     # -------------------------------------------------------------- coercion str -> str | None
     def coerce(self, t, frm, to):
@@ -98,6 +112,37 @@ class CTranslator(XTranslator):
                 return super().call(e, sc, want)
         if isinstance(f, ast.Name) and f.id in self.class_helpers and f.id not in sc.types:
             return self.expand_helper(self.class_helpers[f.id], e, sc)
+        # direct call of a registration, on a value narrowed to the class it is registered for
+        if isinstance(f, ast.Name) and f.id in self.reg_functions and f.id not in sc.types and f.id not in self.sigs:
+            fam, cls = self.reg_functions[f.id]
+            if e.keywords or len(e.args) != 1:
+                raise Unsupported(e, "direct call of a registration")
+            key = ast.dump(e.args[0])
+            if key not in self.narrow or self.narrow[key][0].pyclass != cls:
+                raise Unsupported(e, f"direct call of the registration {f.id} on a value not known to be a {cls}")
+            return self.call_known(fam, e.args, sc, e)
+        # map(f, xs)
+        if isinstance(f, ast.Name) and f.id == "map" and "map" not in sc.types and len(e.args) == 2 and not e.keywords \
+                and isinstance(e.args[0], ast.Name) and e.args[0].id in self.sigs and e.args[0].id not in sc.types:
+            g = e.args[0].id
+            sig, fx = self.sigs[g], self.fx.get(g, NOFX)
+            if len(sig.params) != 1 or fx.state or fx.fuel or g in self.ident:
+                raise Unsupported(e, "map() with a function of this kind")
+            xs, xt = self.expr(e.args[1], sc)
+            if xt != f"(list {sig.params[0][1]})":
+                raise Unsupported(e, f"map() of a {sig.params[0][1]} function over {xt}")
+            if fx.opt:
+                return self.add_pending(sc, "opt", "items", f"omap {sig.name} {xs}", e), f"(list {sig.ret})"
+            return f"(map {sig.name} {xs})", f"(list {sig.ret})"
+        # sep.join(<generator expression>)
+        if isinstance(f, ast.Attribute) and f.attr == "join" and isinstance(f.value, ast.Constant) \
+                and isinstance(f.value.value, str) and len(e.args) == 1 and not e.keywords \
+                and isinstance(e.args[0], ast.GeneratorExp):
+            g = e.args[0]
+            lc = ast.copy_location(ast.ListComp(elt=g.elt, generators=g.generators), g)
+            xs, xt = self.comprehension(lc, sc)
+            self.need(xt, "(list string)", e)
+            return f"(py_join {self.expr(f.value, sc)[0]} {xs})", "string"
         return super().call(e, sc, want)
 
     def expand_helper(self, fn: ast.FunctionDef, call: ast.Call, sc: XScope):
@@ -152,7 +197,53 @@ class CTranslator(XTranslator):
         return "(" + " ".join(lets + [body]) + ")", tys.pop()
 
     # -------------------------------------------------------------- attribute paths under narrowing
+    def literal_pattern(self, node, ty: str):
+        if isinstance(node, ast.List) and not node.elts and ty.startswith("(list "):
+            return "nil"
+        if isinstance(node, ast.Constant) and node.value is None and ty.startswith("(option "):
+            return "None"
+        return None
+
+    def ctor_literal(self, node):
+        """K(<literals>) -> "K p1 p2" (a pattern), or None."""
+        if not (isinstance(node, ast.Call) and not node.keywords):
+            return None
+        cn = self.class_of_name(node.func)
+        if cn is None or cn not in self.U.ctors:
+            return None
+        ct, k = self.U.ctors[cn], self.U.classes[cn]
+        pats = []
+        for i, ((fn, ty), (_, _, default)) in enumerate(zip(ct.fields, k.fields)):
+            a = node.args[i] if i < len(node.args) else default
+            p = self.literal_pattern(a, ty) if a is not None else None
+            if p is None:
+                return None
+            pats.append(p)
+        if len(node.args) > len(ct.fields):
+            return None
+        return f"{ct.coq} {' '.join(pats)}".strip(), ct.ind
+
     def expr(self, e, sc, want=None):
+        if self.opt_narrow and isinstance(e, (ast.Attribute, ast.Name)) and ast.dump(e) in self.opt_narrow:
+            return self.opt_narrow[ast.dump(e)]
+        if isinstance(e, ast.Compare) and len(e.ops) == 1 and isinstance(e.ops[0], (ast.Eq, ast.NotEq)):
+            for x, y in ((e.left, e.comparators[0]), (e.comparators[0], e.left)):
+                lit = self.ctor_literal(y)
+                if lit is not None:
+                    t, ty = self.expr(x, sc)
+                    if ty != lit[1]:
+                        raise Unsupported(e, "== between different types")
+                    r = f"(match {t} with {lit[0]} => true | _ => false end)"
+                    return (r if isinstance(e.ops[0], ast.Eq) else f"(negb {r})"), "bool"
+        if isinstance(e, ast.Subscript) and isinstance(e.slice, ast.Slice):
+            sl = e.slice
+            if sl.upper is None and sl.step is None and isinstance(sl.lower, ast.Constant) \
+                    and isinstance(sl.lower.value, int) and not isinstance(sl.lower.value, bool) and 0 <= sl.lower.value < 100:
+                x, xt = self.expr(e.value, sc)
+                if not xt.startswith("(list ") or xt == "(list _)":
+                    raise Unsupported(e, "slice of a non-list")
+                return f"(skipn {sl.lower.value} {x})", xt
+            raise Unsupported(e, "slice other than xs[n:]")
         if isinstance(e, ast.Attribute) and self.narrow:
             key = ast.dump(e.value)
             if key in self.narrow:
@@ -160,14 +251,33 @@ class CTranslator(XTranslator):
                 if e.attr not in binders:
                     raise Unsupported(e, f"class {ct.pyclass} has no field {e.attr}")
                 return binders[e.attr], dict(ct.fields)[e.attr]
-        return super().expr(e, sc, want)
+        t, ty = super().expr(e, sc, want)
+        if ty == "string" and isinstance(e, (ast.JoinedStr, ast.BinOp)) and t.startswith("(") and t.endswith(")"):
+            t += "%string"  # a string concatenation may sit inside a list concatenation ( ... )%list
+        return t, ty
 
     # -------------------------------------------------------------- statements
+    def for_loop(self, s, rest, sc):
+        """extra.py's loop; a loop with effects uses ofold_u with the accumulator type written out (the
+        pattern `fun '(a, b) x => ..` needs it)."""
+        targets = [x.id for x in ast.walk(s.target) if isinstance(x, ast.Name)]
+        carried = [n for n in self.all_assigned(s.body) if n in sc.types and n not in targets]
+        tys = [sc.types[n] for n in carried]
+        text = super().for_loop(s, rest, sc)
+        if "ofold (fun " in text:
+            if sc.state or any(t.endswith("_)") or t == "_" for t in tys) or text.count("ofold (fun ") != 1:
+                raise Unsupported(s, "loop with effects whose accumulator type is not known")
+            text = text.replace("ofold (fun ", f"@ofold_u _ ({' * '.join(tys)}) (fun ", 1)
+        return text
+
     def is_path(self, n) -> bool:
         """self.f, self.f.g ... : a field path (no call, no subscript)."""
         while isinstance(n, ast.Attribute):
             n = n.value
         return isinstance(n, ast.Name)
+
+    def path_label(self, n) -> str:
+        return n.attr if isinstance(n, ast.Attribute) else n.id
 
     def narrowing_test(self, test):
         """isinstance(P, K)  |  isinstance(P, K) and t1 and ...   ->  (P, K, [t1, ...])"""
@@ -175,7 +285,7 @@ class CTranslator(XTranslator):
         if isinstance(test, ast.BoolOp) and isinstance(test.op, ast.And):
             first, more = test.values[0], list(test.values[1:])
         if isinstance(first, ast.Call) and isinstance(first.func, ast.Name) and first.func.id == "isinstance" \
-                and len(first.args) == 2 and not first.keywords and isinstance(first.args[0], ast.Attribute) \
+                and len(first.args) == 2 and not first.keywords and isinstance(first.args[0], (ast.Attribute, ast.Name)) \
                 and self.is_path(first.args[0]) and not isinstance(first.args[1], ast.Tuple):
             cn = self.class_of_name(first.args[1])
             if cn is not None and cn in self.U.ctors:
@@ -186,6 +296,51 @@ class CTranslator(XTranslator):
         return None
 
     def body(self, stmts, sc):
+        # ---- xs = []  ...  return xs : the declared return type
+        if stmts and isinstance(stmts[0], ast.Assign) and len(stmts[0].targets) == 1 \
+                and isinstance(stmts[0].targets[0], ast.Name) and isinstance(stmts[0].value, ast.List) \
+                and not stmts[0].value.elts and stmts[0].targets[0].id not in sc.types \
+                and sc.ret and sc.ret.startswith("(list ") and sc.ret != "(list _)" \
+                and any(isinstance(r, ast.Return) and isinstance(r.value, ast.Name) and r.value.id == stmts[0].targets[0].id
+                        for st in stmts[1:] for r in ast.walk(st)):
+            name = stmts[0].targets[0].id
+            sc.types[name] = sc.ret
+            k = self.body(stmts[1:], sc)
+            return f"let {safe(name)} := (nil : {sc.ret}) in\n    {k}"
+        # ---- if P is not None: <assignments only>
+        if stmts and isinstance(stmts[0], ast.If) and not stmts[0].orelse:
+            s, rest = stmts[0], stmts[1:]
+            t = s.test
+            if isinstance(t, ast.Compare) and len(t.ops) == 1 and isinstance(t.ops[0], ast.IsNot) \
+                    and isinstance(t.comparators[0], ast.Constant) and t.comparators[0].value is None \
+                    and isinstance(t.left, (ast.Attribute, ast.Name)) and self.is_path(t.left):
+                names = self.assigned_names(list(s.body))
+                if names and not self.has_effects(list(s.body), sc) and all(n in sc.types for n in names):
+                    if sc.pending:
+                        raise AssertionError("pending effects before an if")
+                    v, vt = self.guarded(t.left, sc)
+                    if not vt.startswith("(option ") or vt == "(option _)":
+                        raise Unsupported(s, "`is not None` on a value that is not optional")
+                    key = ast.dump(t.left)
+                    if key in self.opt_narrow:
+                        raise Unsupported(s, "nested `is not None` on the same value")
+                    b = sc.fresh(self.path_label(t.left))
+                    tup = ast.Tuple(elts=[ast.Name(id=n, ctx=ast.Load()) for n in names], ctx=ast.Load()) \
+                        if len(names) > 1 else ast.Name(id=names[0], ctx=ast.Load())
+                    s1 = sc.sub(None)
+                    self.opt_narrow[key] = (b, vt[len("(option "):-1])
+                    try:
+                        a = self.body(list(s.body) + [ast.Return(value=tup)], s1)
+                    finally:
+                        del self.opt_narrow[key]
+                    for n in names:
+                        if s1.types[n] != sc.types[n]:
+                            raise Unsupported(s, f"variable {n} changes type")
+                        sc.origins.pop(n, None)
+                    pat = safe(names[0]) if len(names) == 1 else "'(" + ", ".join(safe(n) for n in names) + ")"
+                    val = safe(names[0]) if len(names) == 1 else "(" + ", ".join(safe(n) for n in names) + ")"
+                    k = self.body(rest, sc)
+                    return f"let {pat} := (match {v} with Some {b} => {a} | None => {val} end) in\n    {k}"
         if stmts and isinstance(stmts[0], ast.If):
             s, rest = stmts[0], stmts[1:]
             t = s.test
@@ -223,7 +378,7 @@ class CTranslator(XTranslator):
                 ct = self.U.ctors[cn]
                 if ct.ind != pt:
                     raise Unsupported(s, "isinstance across types")
-                binders = {fn: sc.fresh(f"{path.attr}_{fn}") for fn, _ in ct.fields}
+                binders = {fn: sc.fresh(f"{self.path_label(path)}_{fn}") for fn, _ in ct.fields}
                 saved, saved_o, saved_s = dict(sc.types), dict(sc.origins), sc.state
                 # else branch first (it does not see the narrowing)
                 if s.orelse:
@@ -244,11 +399,75 @@ class CTranslator(XTranslator):
                 sc.types, sc.origins, sc.state = saved, saved_o, saved_s
                 k = sc.fresh("otherwise")
                 pat = " ".join(binders[fn] for fn, _ in ct.fields)
-                inner = f"if {' && '.join(conds)} then {a}\n      else {k}" if conds else a
+                # the else-continuation is let-bound once, as a thunk (call-by-value evaluation must not run it
+                # when the narrowed branch is taken)
+                inner = f"if {' && '.join(conds)} then {a}\n      else {k} tt" if conds else a
                 wild = "" if len(self.U.inds[ct.ind]) + sum(1 for (_, sup) in self.U.embed if sup == ct.ind) == 1 \
-                    else f"\n    | _ => {k}"
-                return (f"let {k} := ({b}) in\n    match {p} with\n    | {ct.coq} {pat} =>\n      {inner}{wild}\n    end")
+                    else f"\n    | _ => {k} tt"
+                return (f"let {k} := (fun _ : unit => {b}) in\n    match {p} with\n    | {ct.coq} {pat} =>\n      {inner}{wild}\n    end")
         return super().body(stmts, sc)
+
+
+def desugar_list_mutation(fn: ast.FunctionDef) -> ast.FunctionDef:
+    """`xs.append(e)` -> `xs = xs + [e]`, `xs.extend(es)` -> `xs = xs + es`, for every local `xs` that is made
+    by a list display and only ever used as: assignment target, receiver of append / extend, `len(xs)`,
+    `return xs`.  (Such a list has no second name, so the functional reading is exact.)  Other lists are
+    left alone (their `.append` then fails closed as an unsupported statement)."""
+    import copy
+
+    fn = copy.deepcopy(fn)
+    made = set()
+    for n in ast.walk(fn):
+        if isinstance(n, ast.Assign) and len(n.targets) == 1 and isinstance(n.targets[0], ast.Name) \
+                and isinstance(n.value, ast.List) and not any(isinstance(x, ast.Starred) for x in n.value.elts):
+            made.add(n.targets[0].id)
+    params = {a.arg for a in fn.args.args}
+    made -= params
+    parents = {}
+    for n in ast.walk(fn):
+        for c in ast.iter_child_nodes(n):
+            parents[c] = n
+    ok = set(made)
+    for n in ast.walk(fn):
+        if isinstance(n, ast.Name) and n.id in made:
+            par = parents.get(n)
+            good = False
+            if isinstance(n.ctx, ast.Store) and isinstance(par, ast.Assign) and isinstance(par.value, ast.List):
+                good = True
+            elif isinstance(par, ast.Attribute) and par.attr in ("append", "extend") and isinstance(parents.get(par), ast.Call) \
+                    and parents[par].func is par and len(parents[par].args) == 1 and not parents[par].keywords \
+                    and isinstance(parents.get(parents[par]), ast.Expr):
+                good = True
+            elif isinstance(par, ast.Call) and isinstance(par.func, ast.Name) and par.func.id == "len" and par.args == [n]:
+                good = True
+            elif isinstance(par, ast.Return) and par.value is n:
+                good = True
+            if not good:
+                ok.discard(n.id)
+
+    class T(ast.NodeTransformer):
+        def visit_Expr(self, node):
+            c = node.value
+            if isinstance(c, ast.Call) and isinstance(c.func, ast.Attribute) and c.func.attr in ("append", "extend") \
+                    and isinstance(c.func.value, ast.Name) and c.func.value.id in ok and len(c.args) == 1 and not c.keywords:
+                x = c.func.value.id
+                rhs = ast.List(elts=[c.args[0]], ctx=ast.Load()) if c.func.attr == "append" else c.args[0]
+                new = ast.Assign(targets=[ast.Name(id=x, ctx=ast.Store())],
+                                 value=ast.BinOp(left=ast.Name(id=x, ctx=ast.Load()), op=ast.Add(), right=rhs))
+                return ast.fix_missing_locations(ast.copy_location(new, node))
+            return node
+
+    return ast.fix_missing_locations(T().visit(fn))
+
+
+OFOLD_U = """(* PyLib.ofold with the function outside the [fix] (needed for nested recursion under a loop) *)
+Definition ofold_u {A B} (f : B -> A -> option B) : list A -> B -> option B :=
+  fix go (xs : list A) (acc : B) {struct xs} : option B :=
+    match xs with
+    | [] => Some acc
+    | x :: r => match f acc x with None => None | Some acc1 => go r acc1 end
+    end.
+"""
 
 
 class CEmitter(XEmitter):
@@ -301,7 +520,7 @@ class CEmitter(XEmitter):
         self.check_defaults(fn, fam.name)
         params = [(a.arg, pt) for a, (pn, pt) in zip(fn.args.args[1:], sig.params[1:])]
         sc = self.scope_for(fam.name, ct, ct.ind, sname, params)
-        body = self.finish_body(self.tr.body(fn.body, sc), sc)
+        body = self.finish_body(self.tr.body(desugar_list_mutation(fn).body, sc), sc)
         lets = []
         if sname != "self":
             lets.append(f"let {safe(sname)} := self in")
@@ -332,13 +551,13 @@ class CEmitter(XEmitter):
         return f"  | {emb} e_ =>\n    let {safe(sname)} := e_ in {body}"
 
     def emit_statement_family(self, n: str, skip: list[str]) -> str:
-        """A family over `stmt`, as a Definition (none of the translated arms is recursive); the arms
-        of the classes in `skip` are not translated."""
+        """A family over `stmt` with the arm of the embedding constructor; one Fixpoint on self (Block
+        recurses under its loop, Branch / Loop on their fields)."""
         fam = self.fams[n]
         sig = self.tr.sigs[n]
         dom = sig.params[0][1]
         ps = " ".join(f"({safe(pn)} : {ptype(pt)})" for pn, pt in sig.params)
-        out = [f"Definition {n} {ps} : {self.full_ret(n)} :=", "  match self with"]
+        out = [f"Fixpoint {n} {ps} {{struct self}} : {self.full_ret(n)} :=", "  match self with"]
         for ct in self.U.inds[dom]:
             fn = self.registration_for(fam, ct.pyclass)
             sname = fn.args.args[0].arg if fn is not None else "self"
@@ -420,6 +639,9 @@ def gen_ir_to_c(src: Path) -> str:
     fe = CEmitter(tr, fams)
     fe.tr.defaults.setdefault("type_to_c", tr.defaults["type_to_c"])
     tr.class_helpers["parens"] = plain["parens"]
+    out.append(U.emit_projections("function_definition"))
+    out.append(U.emit_projections("module"))
+    out.append(OFOLD_U)
     out.append("Section IrToC.\n(* Python's str(float) (repr of a binary64) is not modelled: an abstract rendering *)\n"
                "Variable str_float : F -> string.\n")
     fe.declare(fams["ir_to_c_expression"], "expr")
@@ -428,11 +650,22 @@ def gen_ir_to_c(src: Path) -> str:
     out.append("(* None = a Python exception (AttributeError: self.name.name on something that is not a Declaration of a Variable) *)")
     fe.declare_function(plain["ir_to_c_declaration"], partial=True)
     out.append(fe.emit_function(plain["ir_to_c_declaration"]))
+    fe.declare_function(plain["indent_lines"])
+    out.append(fe.emit_function(plain["indent_lines"]))
     fe.declare(fams["ir_to_c_statement"], "stmt", partial=True)
     stmt_classes = [ct.pyclass for ct in U.inds["stmt"]]
     if sorted(stmt_classes) != sorted(LAYOUT_CLASSES + ONE_LINE_CLASSES):
         raise Unsupported(ast.Constant(stmt_classes), "unexpected set of statement classes")
-    out.append(fe.emit_statement_family("ir_to_c_statement", LAYOUT_CLASSES))
+    for fam in fams.values():
+        for classes, fn in fam.regs:
+            if len(classes) == 1:
+                tr.reg_functions[fn.name] = (fam.name, classes[0])
+    out.append("(* None = a Python exception (AttributeError in a declaration, IndexError of if_false_lines[0]) *)")
+    out.append(fe.emit_statement_family("ir_to_c_statement", []))
+    fe.declare_function(plain["ir_to_c_function_definition"], partial=True)
+    out.append(fe.emit_function(plain["ir_to_c_function_definition"]))
+    fe.declare_function(plain["ir_to_c"], partial=True)
+    out.append(fe.emit_function(plain["ir_to_c"]))
     out.append("End IrToC.\n")
     return "\n".join(out)
 
